@@ -119,7 +119,7 @@ theorem sepTable_ok (h : CCWF cc) : ∀ s ∈ sepTable, SepOK cc s := by
   have ws : ∀ (c : Char) (s : Text), isWs c = true → SepOK cc s → SepOK cc (c :: s) := fun c s => sepOK_ws h c s
   intro s hs
   simp only [sepTable, List.mem_cons, List.not_mem_nil, or_false] at hs
-  rcases hs with rfl | rfl | rfl | rfl | rfl | rfl | rfl | rfl | rfl | rfl | rfl | rfl | rfl | rfl | rfl | rfl | rfl
+  rcases hs with rfl | rfl | rfl | rfl | rfl | rfl | rfl | rfl | rfl | rfl | rfl | rfl | rfl | rfl | rfl | rfl | rfl | rfl | rfl
   · exact sepOK_nil
   · exact ws _ _ (by decide) sepOK_nil
   · exact ws _ _ (by decide) sepOK_nil
@@ -137,6 +137,8 @@ theorem sepTable_ok (h : CCWF cc) : ∀ s ∈ sepTable, SepOK cc s := by
   · exact sepOK_comment h [] [] (by decide) sepOK_nil
   · exact ws ' ' _ (by decide) (sepOK_comment h " x \"y\" z".toList [' '] (by decide) (ws _ _ (by decide) sepOK_nil))
   · exact ws _ _ (by decide) (ws _ _ (by decide) sepOK_nil)
+  · exact sepOK_comment h " é".toList [] (by decide) sepOK_nil
+  · exact sepOK_comment h " één → 😀 日本語".toList [] (by decide) sepOK_nil
 
 theorem sepAt_ok (h : CCWF cc) (k : Nat) : SepOK cc (sepAt k) := by
   unfold sepAt
